@@ -531,7 +531,7 @@ def cmd_compile(args, out):
                 with warnings.catch_warnings():
                     warnings.simplefilter("ignore")
                     if PY2:
-                        co = compile(src, fname, "exec")
+                        co = compile(src, fname, "exec", 0, True)  # dont_inherit: not this script's own __future__ flags
                     else:
                         co = compile(
                             src,
